@@ -64,9 +64,17 @@ func init() {
 				cfg.Steps += 100
 			}
 			mixStores(cfg, r, 0.4)
-			if r.Bool(0.5) {
-				// caches small enough that old blocks are re-read from the database
-				cfg.CacheSize = []int{60, 100, 200}[r.Intn(3)]
+			if r.Bool(0.4) {
+				// persistent nodes with caches small enough that old blocks are re-read from the database
+				cfg.BadgerCache = []int{60, 100, 200}[r.Intn(3)]
+			} else if r.Bool(0.6) {
+				// persistent nodes that fall behind and reset themselves, then receive
+				// late signatures for blocks from before the reset
+				cfg.FastSyncLate = true
+				cfg.PReFF = 0.03
+				cfg.PSilence = 0.05
+				cfg.Steps += 80
+				mixStores(cfg, r, 0.5)
 			}
 			return cfg
 		},
